@@ -16,9 +16,15 @@ DEST=$(python3 -c "import json;print(json.load(open('$META'))['demo_dest'])")
 PKG=$(python3 -c "import json;print(json.load(open('$META'))['demo_package'])")
 TEST=$(python3 -c "import json;print(json.load(open('$META'))['demo_test'])")
 cd $W || exit 2
-git checkout -q -- . && git clean -fdq
 : > $LOG
+# if the worktree already carries exactly the delivered patch, keep the files (and their mtimes, so
+# the agent's build output is reused); otherwise reset and apply the delivered patch afresh
+rm -f $DEST
+A=$(git diff | git patch-id | cut -d' ' -f1); B=$(git patch-id < $OUT/patch.diff | cut -d' ' -f1)
+if [ "$A" = "$B" ] && [ -n "$A" ]; then echo "worktree diff == delivered patch (patch-id $A)" >> $LOG; else
+git checkout -q -- . && git clean -fdq
 git apply $OUT/patch.diff 2>/dev/null || git apply --3way $OUT/patch.diff || { echo "PATCH DOES NOT APPLY" | tee -a $LOG; exit 1; }
+fi
 git diff --stat | tail -3 >> $LOG
 mkdir -p "$(dirname $DEST)"; cp $OUT/demo.rs $DEST
 echo "== demo WITH change" >> $LOG
